@@ -58,8 +58,9 @@ register(fn_contract(
     cases=[Case("ok", ensures={"r_range": f"1 <= result[0] < {N}", "low_s": f"1 <= result[1] <= {N} // 2"})],
     loops={(f"{EC}.sign", 1): SIGN_OUTER, (f"{EC}.sign", 2): SIGN_INNER},
     modular=[SMUL], returns=("tuple", ["int", "int"]),
-    options={"assumptions": ["A-rng (pyvc/ghosts.py)", "A-order: k*G != O for 1 <= k < n (the order of G is n); without it sign's tuple unpacking could raise TypeError"],
-             "bounded_skip_native": True},
+    options={"fixed_args": {"N": 0xFFFFFFFFFFFFFFFFFFFFFFFFFFFFFFFEBAAEDCE6AF48A03BBFD25E8CD0364141, "G": (0x79BE667EF9DCBBAC55A06295CE870B07029BFCDB2DCE28D959F2815B16F81798, 0x483ADA7726A3C4655DA4FBFC0E1108A8FD17B448A68554199C47D08FFB10D4B8)},
+             "assumptions": ["A-rng (pyvc/ghosts.py)", "A-order: k*G != O for 1 <= k < n (the order of G is n); without it sign's tuple unpacking could raise TypeError"],
+             "bounded_skip_native": True, "nla": False},
 ))
 
 
@@ -89,10 +90,10 @@ def _valid_sigs(rng):
 register(fn_contract(
     "C02.verify", ["C02", "C01"], f"{EC}.verify", {"r": "int", "s": "int", "point": "point", "digest": "int"},
     requires=["spec.ec.on_curve(point[0], point[1])", "0 <= digest < 2**256"],
-    cases=[Case("valid", when="spec.ec.ecdsa_valid(r, s, point, digest)", ensures={"accepts": "result is True"}),
-           Case("invalid", when="not spec.ec.ecdsa_valid(r, s, point, digest)", raises=(AssertionError, TypeError, ValueError))],
+    cases=[Case("valid", when="spec.ec.ecdsa_ok(r, s, point[0], point[1], digest)", ensures={"accepts": "result is True"}),
+           Case("invalid", when="otherwise", raises=(AssertionError, TypeError, ValueError))],
     modular=[SMUL, PADD], returns="bool",
-    options={"native_gen": _valid_sigs, "feas_ms": 250,
+    options={"native_gen": _valid_sigs, "fixed_args": {"N": 0xFFFFFFFFFFFFFFFFFFFFFFFFFFFFFFFEBAAEDCE6AF48A03BBFD25E8CD0364141, "G": (0x79BE667EF9DCBBAC55A06295CE870B07029BFCDB2DCE28D959F2815B16F81798, 0x483ADA7726A3C4655DA4FBFC0E1108A8FD17B448A68554199C47D08FFB10D4B8)}, "feas_ms": 300, "nla": False,
              "assumptions": ["A-prime-n + lemma fermat_inv: pow(s, n-2, n) is the inverse of s modulo the prime n (spec.ec.inv_n)",
                              "assumed contracts C03.point_scalar_mul.assumed / C03.point_add.assumed (group operations)"]},
     witnesses=[],
@@ -119,4 +120,63 @@ register(Theorem(
     cases=[Case("ok", ensures={"bip66": "result is True"})],
     note="the spec encoding satisfies the BIP66 predicate for every (r, s) in range; with C01.der_encode_sig this makes the library's encoding strict",
     witnesses=[{"r": 1, "s": 1}, {"r": 2**255, "s": 2**255 + 1}],
+))
+
+FLAGS = [0x01, 0x02, 0x03, 0x81, 0x82, 0x83]
+SIGN = f"{EC}.sign@C01.sign"
+DERENC = "bits.utils.der_encode_sig@C01.der_encode_sig"
+register(fn_contract(
+    "C01.sig", ["C01"], "bits.utils.sig", {"key": "bytes:32", "msg": "bytes", "sighash_flag": ("enum", FLAGS), "msg_preimage": "bool"},
+    requires=[f"1 <= int.from_bytes(key, 'big') < {N}"],
+    cases=[
+        Case("ok", when="not msg_preimage or int.from_bytes(msg[-4:], 'little') == sighash_flag", ensures={
+            "flag_byte": "result[-1] == sighash_flag",
+            "der_of_signature": "result[:-1] == spec.der.der_sig(ghost_ret_sign[0], ghost_ret_sign[1])",
+            "signs_with_the_key": "ghost_call_sign_key == int.from_bytes(key, 'big')",
+            "signs_the_digest": "ghost_call_sign_digest == int.from_bytes(spec.bip143.dsha(msg if msg_preimage else msg + sighash_flag.to_bytes(4, 'little')), 'big')",
+            "one_signature": "ghost_calls_sign == 1"}),
+        Case("preimage_flag_mismatch", when="otherwise", raises=(AssertionError,)),
+    ],
+    modular=[SIGN, DERENC],
+    options={"assumptions": ["modular: C01.sign, C01.der_encode_sig"], "nla": False, "feas_ms": 300},
+))
+
+
+def _sigtuples(rng):
+    import spec
+    ec = spec.ec
+    base = _valid_sigs(rng)
+    while base["r"] < 1 or base["s"] < 1:
+        base = _valid_sigs(rng)
+    q = base["point"]
+    pk = ec.sec1_encode(q[0], q[1], rng.random() < 0.5)
+    return {"r": base["r"], "s": base["s"], "flag": rng.choice(FLAGS + [0, 4, 255]), "pk": pk,
+            "msg": bytes(rng.getrandbits(8) for _ in range(rng.choice([0, 1, 32, 100]))), "pre": rng.random() < 0.3}
+
+
+register(Theorem(
+    "C02.sig_verify", ["C02", "C01"],
+    params={"r": "int", "s": "int", "flag": "int", "pk": "bytes", "msg": "bytes", "pre": "bool"},
+    requires=["1 <= r < 2**256", "1 <= s < 2**256", "0 <= flag < 256"],
+    lets={"z": "int.from_bytes(spec.bip143.dsha(msg if pre else msg + flag.to_bytes(4, 'little')), 'big')"},
+    body="bits.utils.sig_verify(spec.der.der_sig(r, s) + bytes([flag]), pk, msg, msg_preimage=pre)",
+    cases=[
+        Case("valid", when="spec.ec.sec1_ok(pk) and spec.ec.ecdsa_ok(r, s, spec.ec.sec1_x(pk), spec.ec.sec1_y(pk), z)",
+             ensures={"ok": "result == 'OK'"}),
+        Case("invalid", when="otherwise", raises=(ValueError, TypeError, AssertionError, IndexError, KeyError),
+             ensures={"never_ok": "result != 'OK'"}),
+    ],
+    modular=["bits.utils.point@C14.point", f"{EC}.verify@C02.verify"],
+    fuc=["bits.utils.sig_verify", "bits.utils.der_decode_sig"],
+    options={"native_gen": _sigtuples, "feas_ms": 300, "nla": False,
+             "assumptions": ["signatures are given as spec DER of (r, s) with 1 <= r, s < 2**256 plus a flag byte; arbitrary non-DER byte strings are not covered (parse_asn1 over symbolic bytes needs an invariant)"]},
+))
+
+register(Theorem(
+    "C02.ensure_sig_low_s", ["C02"], params={"r": "int", "s": "int"}, requires=[f"1 <= r < {N}", f"1 <= s < {N}"],
+    body="bits.utils.ensure_sig_low_s(spec.der.der_sig(r, s))",
+    cases=[Case("ok", ensures={"low_s_strict_der": f"result == spec.der.der_sig(r, s if s <= {N} // 2 else {N} - s)"})],
+    fuc=["bits.utils.ensure_sig_low_s"], options={"nla": False, "feas_ms": 300},
+    witnesses=[{"r": 5, "s": 7}, {"r": 5, "s": 0xFFFFFFFFFFFFFFFFFFFFFFFFFFFFFFFEBAAEDCE6AF48A03BBFD25E8CD0364141 - 0x1234},
+               {"r": 2**255, "s": 0xFFFFFFFFFFFFFFFFFFFFFFFFFFFFFFFEBAAEDCE6AF48A03BBFD25E8CD0364141 - 1}],
 ))
